@@ -1,1 +1,522 @@
-PROPS = {}
+"""Search properties: C03 C11 C12 C13 C14 C19."""
+import random
+import re
+import time
+
+import vlib
+from vlib import Pos, fmt_mv, log, parse_moves, run_driver, run_driver_par, run_hx, run_hx_par
+from props_core import compare, gen_positions, sizes
+
+MATE = 1000000
+
+
+# ------------------------------------------------------------------ inputs
+def games(res, n_games, plies, sparse, corpus):
+    lines = gen_positions(res, n_games, plies, sparse, corpus, null=0, with_games=True)
+    gs, cur = [], []
+    for l in lines:
+        if l == "#":
+            if cur:
+                gs.append(cur)
+            cur = []
+        else:
+            cur.append(l)
+    if cur:
+        gs.append(cur)
+    return gs
+
+
+def roots_with_history(res, gs, per_game, rnd):
+    """(position, history keys oldest->newest incl. the root's own key)"""
+    out = []
+    for g in gs:
+        if len(g) == 1:
+            out.append((g[0], [Pos(g[0]).hash]))
+            continue
+        for _ in range(per_game):
+            i = rnd.randrange(len(g))
+            out.append((g[i], [Pos(x).hash for x in g[: i + 1]]))
+    return out
+
+
+def in_domain(ps):
+    ind = run_driver_par(["sind " + p for p in ps])
+    return [d.split()[0] == "1" and d.split()[1] == "1" for d in ind]
+
+
+def hist_str(h):
+    return ",".join(str(x) for x in h) if h else "-"
+
+
+def parse_root(line):
+    """'<mv>/<uci>|ERR hist=b pos=b infos=... tt=...' -> dict"""
+    if line in ("PANIC", "DIED", "bad-op"):
+        return {"raw": line, "panic": True}
+    m = re.match(r"^(\S+) hist=(\d) pos=(\d) infos=(.*) tt=(\S+)$", line)
+    if not m:
+        return {"raw": line, "panic": True}
+    infos = []
+    if m.group(4) != "-":
+        for rec in m.group(4).split("|"):
+            d = dict(kv.split("=", 1) for kv in rec.split(" "))
+            infos.append({"depth": int(d["d"]), "seldepth": int(d["sd"]), "score": int(d["sc"]), "nodes": int(d["n"]), "hashfull": int(d["hf"]),
+                          "pv": [x.split("/")[0] for x in d["pv"].split(",")] if d["pv"] else []})
+    best = None if m.group(1) == "ERR" else m.group(1).split("/")[0]
+    return {"raw": line, "panic": False, "best": best, "best_uci": None if best is None else m.group(1).split("/")[1],
+            "hist_ok": m.group(2) == "1", "pos_ok": m.group(3) == "1", "infos": infos, "tt": m.group(5)}
+
+
+def successors(ps_moves):
+    """[(p, m)] -> successor raw positions by the real make-move"""
+    return run_hx_par([f"make {p} {m[0]} {m[1]} {m[2]} 1" for p, m in ps_moves])
+
+
+def prefilled_tables(res, roots, rnd, depth=2):
+    """tables left behind by earlier searches of the root, a successor or an unrelated position (real engine)."""
+    legal = run_hx_par(["moves " + p for p, _ in roots])
+    reqs = []
+    for (p, h), ml in zip(roots, legal):
+        ms = parse_moves(ml)
+        k = rnd.randrange(3)
+        if k == 0 or not ms:
+            reqs.append(f"root {p} {hist_str(h)} 1 depth {depth}")
+        elif k == 1:
+            m = rnd.choice(ms)
+            reqs.append(("succ", p, m))
+        else:
+            q, hq = rnd.choice(roots)
+            reqs.append(f"root {q} {hist_str(hq)} 1 depth {depth}")
+    succ_idx = [i for i, r in enumerate(reqs) if isinstance(r, tuple)]
+    succ = successors([(reqs[i][1], reqs[i][2]) for i in succ_idx])
+    for i, s in zip(succ_idx, succ):
+        reqs[i] = f"root {s} {Pos(s).hash} 1 depth {depth + 1}" if s not in ("PANIC", "DIED") else f"root {roots[i][0]} - 1 depth 1"
+    outs = run_hx_par(reqs)
+    tts = []
+    for o in outs:
+        r = parse_root(o)
+        tts.append("1" if r["panic"] else "1;" + ";".join(r["tt"].split(";")[1:]) if ";" in r.get("tt", "") else "1")
+    return tts
+
+
+def limit_args(rnd):
+    k = rnd.random()
+    if k < 0.35:
+        return "depth", f"depth {rnd.choice([0, 1, 1, 2, 2, 3])}", True
+    if k < 0.6:
+        return "nodes", f"nodes {rnd.choice([0, 1, 2, 10, 60, 300, 1500])}", True
+    if k < 0.8:
+        return "movetime", f"movetime {rnd.choice([0, 0, 1, 3, 10])}", False
+    wt, bt = rnd.choice([0, 1, 20, 29, 30, 60, 200]), rnd.choice([0, 1, 20, 29, 30, 60, 200])
+    mtg = rnd.choice(["-", "-", "1", "5", "40"])
+    return "time", f"time {wt} {bt} {mtg}", False
+
+
+def legal_oracle(ps):
+    return [set(fmt_mv(m) for m in parse_moves(s)) for s in run_driver_par(["smoves " + p for p in ps])]
+
+
+# ------------------------------------------------------------------ C03
+def special_roots(base, rnd):
+    """roots already drawable by rule: clock >= 100, 2nd/3rd/4th occurrence of the root in its history."""
+    out = []
+    for p, h in base:
+        P = Pos(p)
+        k = rnd.randrange(4)
+        if k == 0:
+            out.append((str(P.with_(halfmoves=rnd.choice([99, 100, 100, 101, 120]))), h[-1:], "clock>=99"))
+        else:
+            occ = k + 1     # 2nd, 3rd, 4th occurrence
+            hist = []
+            for i in range(occ - 1):
+                hist += [P.hash, rnd.getrandbits(64)]
+            hist += [P.hash]
+            out.append((str(P.with_(halfmoves=max(P.halfmoves, len(hist) + 1))), hist, f"occurrence#{occ}"))
+    return out
+
+
+def run_C03(res):
+    g, pl, sp, co = sizes(res, (12, 60, 60, 40), (120, 120, 1500, 600))
+    rnd = random.Random(res.seed)
+    gs = games(res, g, pl, sp, co)
+    roots = roots_with_history(res, gs, 3, rnd)
+    ok = in_domain([p for p, _ in roots])
+    roots = [r for r, o in zip(roots, ok) if o]
+    rnd.shuffle(roots)
+    roots = roots[: (140 if res.tier == "quick" else 2500)]
+    spec = special_roots(roots[: len(roots) // 3], rnd)
+    res.coverage["rule"] = ("roots sampled from model-side games (with their real key histories), constructed positions and /repo's test FENs; limits: depth 0..3, "
+                            "nodes 0..1500, movetime 0..10 ms, clocks 0..200 ms with/without movestogo; tables fresh or left by earlier real searches of the root, a "
+                            "successor or another position; plus roots with clock 99..120 and 2nd/3rd/4th occurrence histories; oracle = Spec.legalMoves")
+    tts = prefilled_tables(res, roots, rnd)
+    cases = []
+    for (p, h), tt in zip(roots, tts):
+        kind, args, det = limit_args(rnd)
+        cases.append((p, h, tt if rnd.random() < 0.5 else "1", kind, args, det, "game"))
+    for p, h, tag in spec:
+        kind, args, det = limit_args(rnd)
+        cases.append((p, h, "1", kind, args, det, tag))
+    reqs = [f"root {p} {hist_str(h)} {tt} {args}" for p, h, tt, kind, args, det, tag in cases]
+    impl = run_hx_par(reqs)
+    det_idx = [i for i, c in enumerate(cases) if c[5]]
+    model = dict(zip(det_idx, run_driver_par([reqs[i] for i in det_idx])))
+    legal = legal_oracle([c[0] for c in cases])
+    for i, (c, r) in enumerate(zip(cases, impl)):
+        p, h, tt, kind, args, det, tag = c
+        res.case(reqs[i], True, {"root": p, "history_len": len(h), "limit": args, "table": "prefilled" if tt != "1" else "fresh", "tag": tag, "result": r[:60]})
+        res.count("limit_" + kind)
+        res.count("root_" + tag)
+        if det and model[i] != r:
+            res.disagree("search::root::root (" + args + ")", reqs[i][:400], r[:300], model[i][:300])
+        pr = parse_root(r)
+        if pr["panic"]:
+            res.fail("search panicked", root=p, history=h, limit=args, tag=tag, observed=r[:80])
+            continue
+        if legal[i]:
+            if pr["best"] is None:
+                res.fail("search returned the null move although the root has legal moves", root=p, history=h, limit=args, table=tt[:80], tag=tag)
+            elif pr["best"] not in legal[i]:
+                res.fail("search returned an illegal move", root=p, history=h, limit=args, tag=tag, observed=pr["best"])
+        else:
+            res.count("root_without_legal_moves")
+            if pr["best"] is not None:
+                res.fail("search returned a move in a position without legal moves", root=p, observed=pr["best"])
+
+
+def match_F2(f):
+    if f.get("what") != "search returned the null move although the root has legal moves":
+        return False
+    lim = f.get("limit", "")
+    return lim in ("depth 0", "nodes 0", "movetime 0") or lim.startswith("time ") or f.get("tag", "") in ("clock>=99", "occurrence#3", "occurrence#4") \
+        or lim.startswith("movetime")
+
+
+# ------------------------------------------------------------------ C13 / C14
+def run_C13(res):
+    g, pl, sp, co = sizes(res, (10, 60, 50, 30), (100, 120, 1200, 500))
+    rnd = random.Random(res.seed)
+    gs = games(res, g, pl, sp, co)
+    roots = roots_with_history(res, gs, 3, rnd)
+    ok = in_domain([p for p, _ in roots])
+    roots = [r for r, o in zip(roots, ok) if o]
+    rnd.shuffle(roots)
+    roots = roots[: (100 if res.tier == "quick" else 2000)]
+    res.coverage["rule"] = ("every search is run twice by the real driver from equal initial state (position, history, table image) and once by the Lean model: "
+                            "history vector and position unchanged afterwards (compared inside the harness), identical best move and identical info stream "
+                            "(depth, seldepth, score, nodes, pv, hashfull) and final table image; limits depth 1..4, nodes; also time limits for the unchanged-state clause")
+    tts = prefilled_tables(res, roots, rnd)
+    reqs, det = [], []
+    for (p, h), tt in zip(roots, tts):
+        k = rnd.random()
+        if k < 0.5:
+            a, d = f"depth {rnd.choice([1, 2, 3, 3, 4] if res.tier == 'thorough' else [1, 2, 3])}", True
+        elif k < 0.85:
+            a, d = f"nodes {rnd.choice([1, 30, 200, 1000, 4000])}", True
+        else:
+            a, d = f"movetime {rnd.choice([0, 2, 8])}", False
+        reqs.append(f"root {p} {hist_str(h)} {tt if rnd.random() < 0.6 else '1'} {a}")
+        det.append(d)
+    a1 = run_hx_par(reqs)
+    a2 = run_hx_par(reqs)
+    di = [i for i, d in enumerate(det) if d]
+    model = dict(zip(di, run_driver_par([reqs[i] for i in di])))
+    for i, r in enumerate(a1):
+        res.case(reqs[i], True, {"request": reqs[i][:160], "result": r[:120]})
+        pr = parse_root(r)
+        if pr["panic"]:
+            res.fail("search panicked", request=reqs[i][:300], observed=r[:80])
+            continue
+        if not pr["hist_ok"] or not pr["pos_ok"]:
+            res.fail("search changed the position or the game history it was given", request=reqs[i][:300], hist_unchanged=pr["hist_ok"], pos_unchanged=pr["pos_ok"])
+        if det[i]:
+            if a2[i] != r:
+                res.fail("repeating the same depth/node-limited search from equal state gave a different result", request=reqs[i][:300], first=r[:200], second=a2[i][:200])
+            if model[i] != r:
+                res.disagree("search::root::root", reqs[i][:300], r[:300], model[i][:300])
+            res.count("deterministic_runs_compared")
+        else:
+            res.count("time_limited_runs_state_only")
+
+
+def run_C14(res):
+    g, pl, sp, co = sizes(res, (10, 60, 50, 30), (100, 120, 1200, 500))
+    rnd = random.Random(res.seed)
+    gs = games(res, g, pl, sp, co)
+    roots = roots_with_history(res, gs, 3, rnd)
+    ok = in_domain([p for p, _ in roots])
+    roots = [r for r, o in zip(roots, ok) if o]
+    legal = legal_oracle([p for p, _ in roots])
+    roots = [r for r, l in zip(roots, legal) if l]
+    rnd.shuffle(roots)
+    roots = roots[: (100 if res.tier == "quick" else 2000)]
+    res.coverage["rule"] = ("roots with legal moves; depth limits 1..4: reported depths are exactly 1..D; node limits: no iteration >= 2 is reported once N nodes are spent; "
+                            "every limit: best move = head of the last reported pv, scores strictly inside the mate bounds; process level: go movetime / clocks answered within budget + 250 ms")
+    reqs, lims = [], []
+    for p, h in roots:
+        k = rnd.random()
+        if k < 0.45:
+            lim = ("depth", rnd.choice([1, 2, 3] if res.tier == "quick" else [1, 2, 3, 4, 5]))
+        elif k < 0.8:
+            lim = ("nodes", rnd.choice([1, 20, 100, 500, 3000]))
+        else:
+            lim = ("movetime", rnd.choice([1, 5, 15]))
+        lims.append(lim)
+        reqs.append(f"root {p} {hist_str(h)} 1 {lim[0]} {lim[1]}")
+    impl = run_hx_par(reqs)
+    di = [i for i, l in enumerate(lims) if l[0] != "movetime"]
+    model = dict(zip(di, run_driver_par([reqs[i] for i in di])))
+    for i, r in enumerate(impl):
+        res.case(reqs[i], True, {"request": reqs[i][:160], "result": r[:160]})
+        pr = parse_root(r)
+        if pr["panic"]:
+            res.fail("search panicked", request=reqs[i][:300], observed=r[:80])
+            continue
+        if i in model and model[i] != r:
+            res.disagree("search::root::root", reqs[i][:300], r[:300], model[i][:300])
+        kind, val = lims[i]
+        depths = [x["depth"] for x in pr["infos"]]
+        if kind == "depth" and depths != list(range(1, val + 1)):
+            res.fail("depth limit: reported iterations are not exactly 1..D", request=reqs[i][:300], limit=val, observed=depths)
+        if kind == "nodes":
+            late = [x for x in pr["infos"] if x["depth"] >= 2 and x["nodes"] >= val]
+            if late or not depths or depths != list(range(1, len(depths) + 1)):
+                res.fail("node limit: an iteration after the first was reported after N nodes were spent", request=reqs[i][:300], limit=val,
+                         observed=[(x["depth"], x["nodes"]) for x in pr["infos"]])
+        if not pr["infos"] or pr["best"] is None or pr["infos"][-1]["pv"][:1] != [pr["best"]]:
+            res.fail("best move is not the head of the last reported principal variation", request=reqs[i][:300], best=pr["best"],
+                     last_pv=pr["infos"][-1]["pv"] if pr["infos"] else None)
+        for x in pr["infos"]:
+            if not (-MATE < x["score"] < MATE):
+                res.fail("reported score outside the mate bounds", request=reqs[i][:300], observed=x["score"])
+    # wall clock at process level (exploration clause)
+    vlib.cargo_build_bins()
+    fens = run_hx(["fenout " + p for p, _ in roots[:12 if res.tier == "quick" else 60]])
+    worst = 0.0
+    for f in fens:
+        for args, budget in (("movetime 60", 0.060), ("wtime 900 btime 900", 0.9), ("wtime 600 btime 600 movestogo 10", 0.6)):
+            t0 = time.time()
+            rc, out, err, to, secs = vlib.run_engine(["isready", "position fen " + f, "go " + args, "quit"], "release", timeout=10)
+            # subtract process start-up measured by the readyok-only run? keep it simple and generous: 250 ms allowance
+            over = secs - budget
+            worst = max(worst, over)
+            res.evaluations += 1
+            if to or "bestmove" not in out:
+                res.fail("no bestmove within 10 s for a time-limited search", fen=f, go=args)
+            elif over > 0.25:
+                res.fail("time-limited search overran its budget by more than 250 ms", fen=f, go=args, seconds=round(secs, 3))
+    res.coverage["max_overshoot_s_incl_process_startup"] = round(worst, 3)
+    res.notes.append("the wall-clock clause is exploration: the model has a stop oracle, not a clock")
+
+
+def match_F10(f):
+    return f.get("what") == "depth limit: reported iterations are not exactly 1..D" and f.get("limit", 0) >= 128
+
+
+# ------------------------------------------------------------------ C12
+def run_C12(res):
+    rnd = random.Random(res.seed)
+    n = 2500 if res.tier == "quick" else 60000
+    ps = [l for l in run_driver([f"gmate {res.seed} {n} 0", f"gmate {res.seed + 1} {n // 4} 1"]) if l and l != "bad-op"]
+    gs = games(res, 6 if res.tier == "quick" else 60, 80, 0, 200)
+    cand = [p for g in gs for p in g]
+    # mates in one met in playouts / test FENs as well
+    legal = run_hx_par(["moves " + p for p in cand])
+    res.coverage["rule"] = ("mate-in-one positions mined from constructed positions, playouts and /repo's test FENs (clock < 99); depth 1..4; tables fresh or left by "
+                            "earlier real searches of the root at another depth, of a successor, or of another mate position; oracle = Spec: returned move mates, last score = MATE_SCORE-1")
+    ps = list(dict.fromkeys(ps))
+    ok = in_domain(ps)
+    ps = [p for p, o in zip(ps, ok) if o][: (150 if res.tier == "quick" else 3000)]
+    roots = [(p, [Pos(p).hash]) for p in ps]
+    tts = prefilled_tables(res, roots, rnd, depth=2)
+    reqs = []
+    for (p, h), tt in zip(roots, tts):
+        d = rnd.choice([1, 2, 3] if res.tier == "quick" else [1, 2, 3, 4])
+        reqs.append(f"root {p} {hist_str(h)} {tt if rnd.random() < 0.6 else '1'} depth {d}")
+    impl = run_hx_par(reqs)
+    model = run_driver_par(reqs)
+    compare(res, "search::root::root", reqs, impl, model)
+    best = []
+    for i, r in enumerate(impl):
+        pr = parse_root(r)
+        best.append(None if pr["panic"] or pr["best"] is None else tuple(int(x) for x in pr["best"].split(":")))
+    succ = successors([(ps[i], b) for i, b in enumerate(best) if b is not None])
+    it = iter(succ)
+    succ_by_i = {i: next(it) for i, b in enumerate(best) if b is not None}
+    sm = dict(zip(succ_by_i, run_driver_par(["smoves " + s for s in succ_by_i.values()])))
+    sc = dict(zip(succ_by_i, run_driver_par(["scheck " + s for s in succ_by_i.values()])))
+    for i, r in enumerate(impl):
+        res.case(reqs[i], True, {"request": reqs[i][:200], "result": r[:100]})
+        res.count("table_prefilled" if " 1;" in reqs[i] else "table_fresh")
+        pr = parse_root(r)
+        if pr["panic"] or best[i] is None:
+            res.fail("search failed on a mate-in-one position", request=reqs[i][:300], observed=r[:80])
+            continue
+        if not (sm[i] == "-" and sc[i].split()[0] == "1"):
+            res.fail("a mate in one exists but the returned move does not checkmate", request=reqs[i][:400], observed=pr["best_uci"])
+        if pr["infos"][-1]["score"] != MATE - 1:
+            res.fail("last reported score is not the mate-in-one score", request=reqs[i][:400], observed=pr["infos"][-1]["score"])
+
+
+# ------------------------------------------------------------------ C11
+def reversible(P, m):
+    return not ((P.c1 >> m[1]) & 1 or (P.c0 >> m[1]) & 1 or (P.piece(0) >> m[0]) & 1 or m[2] != 6)
+
+
+def build_repetition_roots(res, cands, rnd):
+    """R' with exactly one (reversible) legal move m; X = R'.m ; game X -a-> Y -m^-1-> Z -a^-1-> R' ;
+    the root R' then has its only successor X already in the history (at clock 0 when X starts the game)."""
+    out = []
+    legal = run_hx_par(["moves " + p for p in cands])
+    sel = []
+    for p, ml in zip(cands, legal):
+        ms = parse_moves(ml)
+        if len(ms) == 1 and reversible(Pos(p), ms[0]):
+            sel.append((p, ms[0]))
+    xs = successors(sel)
+    for (r, m), x in zip(sel, xs):
+        if x in ("PANIC", "DIED"):
+            continue
+        X = Pos(x)
+        amoves = [a for a in parse_moves(run_hx([f"moves {x}"])[0]) if reversible(X, a)]
+        rnd.shuffle(amoves)
+        for a in amoves[:6]:
+            y = run_hx([f"make {x} {a[0]} {a[1]} {a[2]} 1"])[0]
+            minv = (m[1], m[0], 6)
+            if minv not in parse_moves(run_hx([f"moves {y}"])[0]):
+                continue
+            z = run_hx([f"make {y} {minv[0]} {minv[1]} 6 1"])[0]
+            ainv = (a[1], a[0], 6)
+            if ainv not in parse_moves(run_hx([f"moves {z}"])[0]):
+                continue
+            r2 = run_hx([f"make {z} {ainv[0]} {ainv[1]} 6 1"])[0]
+            if Pos(r2).hash != Pos(r).hash or Pos(r2).t[:8] != Pos(r).t[:8]:
+                continue
+            for start_clock in (0, rnd.choice([1, 3, 10])):
+                hm = start_clock
+                keys = [X.hash, Pos(y).hash, Pos(z).hash, Pos(r2).hash]
+                root = str(Pos(r2).with_(halfmoves=hm + 3))
+                out.append((root, keys, f"repetition(start clock {start_clock})"))
+            break
+    return out
+
+
+def run_C11(res):
+    rnd = random.Random(res.seed)
+    n = 4000 if res.tier == "quick" else 80000
+    sparse = [l for l in run_driver([f"gsparse {res.seed} {n} 0"]) if l and l != "bad-op"]
+    gs = games(res, 10 if res.tier == "quick" else 100, 100, 0, 0)
+    pool = list(dict.fromkeys(sparse + [p for g in gs for p in g]))
+    res.coverage["rule"] = ("(a) roots without legal captures or pawn moves and no mating move, clock set to 99; (b) roots whose only move returns to a position already in a legally "
+                            "played history (earlier occurrence at clock 0 and at clock >= 1); empty 1 MB table; depth 2..4; oracle: every info from depth 2 (depth 1 if in check) "
+                            "scores -DRAW_SCORE = the same constant, best move legal")
+    # (a) fifty-move roots
+    legal = run_hx_par(["moves " + p for p in pool])
+    fifty = []
+    for p, ml in zip(pool, legal):
+        ms = parse_moves(ml)
+        if ms and all(reversible(Pos(p), m) or (Pos(p).c0 >> m[1]) & 1 for m in ms) and not any((Pos(p).piece(0) >> m[0]) & 1 for m in ms) \
+                and not any((Pos(p).c1 >> m[1]) & 1 for m in ms):
+            fifty.append((p, ms))
+    rnd.shuffle(fifty)
+    fifty = fifty[: (120 if res.tier == "quick" else 2500)]
+    # exclude roots with a mating move
+    sm = successors([(p, m) for p, ms in fifty for m in ms])
+    smoves = run_driver_par(["moves " + s for s in sm])
+    schk = run_hx_par(["check " + s for s in sm])
+    k = 0
+    cases = []
+    for p, ms in fifty:
+        mate = False
+        for m in ms:
+            if smoves[k] == "-" and schk[k].split()[0] == "1":
+                mate = True
+            k += 1
+        if not mate:
+            P = Pos(p).with_(halfmoves=99)
+            cases.append((str(P), [P.hash], "fifty-move"))
+    reps = build_repetition_roots(res, pool[: (2500 if res.tier == "quick" else 40000)], rnd)
+    cases += reps
+    ok = in_domain([c[0] for c in cases])
+    cases = [c for c, o in zip(cases, ok) if o]
+    chk = run_hx_par(["check " + c[0] for c in cases])
+    reqs = [f"root {p} {hist_str(h)} 1 depth {rnd.choice([2, 3] if res.tier == 'quick' else [2, 3, 4, 5])}" for p, h, tag in cases]
+    impl = run_hx_par(reqs)
+    model = run_driver_par(reqs)
+    compare(res, "search::root::root", reqs, impl, model)
+    legal = legal_oracle([c[0] for c in cases])
+    consts = set()
+    for i, r in enumerate(impl):
+        p, h, tag = cases[i]
+        res.case(reqs[i], True, {"root": p, "history": h, "kind": tag, "result": r[:120]})
+        res.count("roots_" + tag.split("(")[0])
+        pr = parse_root(r)
+        if pr["panic"] or pr["best"] is None or pr["best"] not in legal[i]:
+            res.fail("search did not return a legal move on an all-successors-drawn root", root=p, history=h, kind=tag, observed=r[:80])
+            continue
+        first = 1 if chk[i].split()[0] == "1" else 2
+        for x in pr["infos"]:
+            if x["depth"] >= first:
+                consts.add(x["score"])
+                if x["score"] != 50:
+                    res.fail("an iteration from depth 2 on does not report the draw score although every move leads to a rule draw", root=p, history=h,
+                             kind=tag, depth=x["depth"], observed=x["score"], expected=50)
+    res.coverage["draw_score_constants_seen"] = sorted(consts)
+
+
+def match_F6(f):
+    return f.get("what", "").startswith("an iteration from depth 2 on does not report the draw score") and f.get("kind") == "repetition(start clock 0)"
+
+
+# ------------------------------------------------------------------ C19
+def run_C19(res):
+    g, pl, sp, co = sizes(res, (12, 70, 1500, 300), (200, 120, 40000, 3000))
+    rnd = random.Random(res.seed)
+    ps = gen_positions(res, g, pl, sp, co)
+    ok = in_domain(ps)
+    ps = [p for p, o in zip(ps, ok) if o]
+    res.coverage["rule"] = ("positions whose capture tree has <= 3000 qsearch nodes; exact value by plain minimax over Spec captures/successors with the engine evaluation; "
+                            "windows: full, around v, excluding v below and above, width 1; non-trivial = the position has at least one legal capture")
+    full = run_hx_par([f"qs {p} -10000000 10000000" for p in ps])
+    keep = [(p, f) for p, f in zip(ps, full) if f not in ("PANIC", "DIED") and int(f.split()[1]) <= 3000]
+    rnd.shuffle(keep)
+    keep = keep[: (400 if res.tier == "quick" else 12000)]
+    exact = run_driver_par([f"sqmin {p} {1200 if res.tier == 'quick' else 20000}" for p, _ in keep])
+    res.count("capture_trees_too_big_skipped", sum(1 for v in exact if v == "BIG"))
+    pairs = [(k, v) for k, v in zip(keep, exact) if v != "BIG"]
+    keep = [k for k, v in pairs]
+    reqs, meta = [], []
+    for (p, f), v in pairs:
+        v = int(v)
+        if int(f.split()[0]) != v:
+            res.fail("full-window quiescence value differs from the minimax value of the capture tree", position=p, observed=f.split()[0], expected=v)
+        d = rnd.choice([1, 5, 30, 200])
+        for a, b in ((v - d, v + d), (v + 1, v + 1 + d), (v - 1 - d, v - 1), (v - 1, v), (v, v + 1), (v - 1, v + 1)):
+            reqs.append(f"qs {p} {a} {b}")
+            meta.append((p, a, b, v))
+    impl = run_hx_par(reqs)
+    model = run_driver_par(reqs)
+    compare(res, "qsearch", reqs, impl, model)
+    ic = run_hx_par(reqs, "checked")
+    for (p, a, b, v), r, rc in zip(meta, impl, ic):
+        nontriv = True
+        res.case(f"{p}|{a}|{b}", nontriv, {"position": p, "window": [a, b], "exact": v, "result": r})
+        if r in ("PANIC", "DIED") or rc != r:
+            res.fail("qsearch panicked / tripped a debug assertion", position=p, window=[a, b], observed=(r, rc))
+            continue
+        s = int(r.split()[0])
+        if a < v < b and s != v:
+            res.fail("exact value inside the window but qsearch returned something else", position=p, window=[a, b], exact=v, observed=s)
+        if s <= a and not v <= s:
+            res.fail("fail-low result is not an upper bound of the exact value", position=p, window=[a, b], exact=v, observed=s)
+        if s >= b and not s <= v:
+            res.fail("fail-high result is not a lower bound of the exact value", position=p, window=[a, b], exact=v, observed=s)
+    res.count("positions", len(keep))
+
+
+PROPS = {
+    "C03": {"run": run_C03, "matchers": {"F2": match_F2}},
+    "C11": {"run": run_C11, "matchers": {"F6": match_F6}},
+    "C12": {"run": run_C12},
+    "C13": {"run": run_C13},
+    "C14": {"run": run_C14, "matchers": {"F10": match_F10}},
+    "C19": {"run": run_C19},
+}
